@@ -53,7 +53,9 @@ class G:
         r = rng.random()
         if "kw" in self.allow and r < 0.2 and fn != "call_next":
             self.used.add("kw")
-            return f"{fn}({arg}, tag={self.expr(depth - 1)})"
+            # one or two keyword arguments, in either order (their expressions must be evaluated as written)
+            kws = rng.choice([["tag"], ["tag"], ["tag", "w"], ["w", "tag"], ["w"]])
+            return f"{fn}({arg}, " + ", ".join(f"{k}={self.expr(depth - 1)}" for k in kws) + ")"
         if "starred" in self.allow and r < 0.3 and fn != "call_next":
             self.used.add("starred")
             return f"{fn}(*[{arg}])"
@@ -159,7 +161,7 @@ def build(rng, lines, used, closure, kwdefault):
 
     _uid[0] += 1
     pad = rng.randint(0, 4)
-    hdr_params = "x: list, y: int = 3" + (", *, tag: object = 'dflt'" if kwdefault else "")
+    hdr_params = "x: list, y: int = 3" + (", *, tag: object = 'dflt', w: object = 'dw'" if kwdefault else "")
 
     def src_for(name, rec, cn, selfname):
         body = [l.replace("recurse(", rec + "(").replace("call_next(", cn + "(").replace("F(", selfname + "(") for l in lines]
@@ -195,7 +197,7 @@ def m_tup(x: tuple, y: int = 3{kw}):
 def m_obj(x: object, y: int = 3{kw}):
     TICK(('obj', type(x).__name__), None)
     return ('O', type(x).__name__{kwr})
-""".format(kw=", *, tag: object = 'dflt'" if kwdefault else "", kwr=", tag" if kwdefault else "")
+""".format(kw=", *, tag: object = 'dflt', w: object = 'dw'" if kwdefault else "", kwr=", tag, w" if kwdefault else "")
         exec(compile(ex, f"<verif-leafs-{_uid[0]}>", "exec"), glb)
 
     # --- the real thing
